@@ -35,7 +35,7 @@ import weakref
 STREAMS = ['endpoints-parse', 'lifecycle-close-everywhere', 'lifecycle-random', 'lifecycle-reactions',
            'lifecycle-extended']
 THEOREMS = ['connect_fires_once', 'first_reachable_in_order', 'lost_fails_everything_once', 'endpoint_prefix_table',
-            'address_list_in_listed_order']
+            'address_list_in_listed_order', 'written_addresses_tried_in_order']
 TRUSTED_BASE = [
     'Twisted semantics assumed by the model and emulated by the harness: connectionLost is delivered once, no data '
     'after it; transport.loseConnection() is followed by connectionLost(ConnectionDone); an exception escaping '
@@ -911,6 +911,9 @@ def canon_view(view):
         return view
     log, state = view.split(' | ', 1)
     toks = [t for t in log.split(' ') if t]
+    # getRemoteObject's Deferred may fail with the loss reason itself or with IntrospectionFailed wrapping it
+    toks = [t[:-len('introspectionFailed')] + 'lost' if t.startswith('er:') and t.endswith(':introspectionFailed') else t
+            for t in toks]
     seq = [t for t in toks if t.startswith('at:') or t.startswith('cf:')]
     return ' '.join(seq) + ' || ' + ' '.join(sorted(toks)) + ' | ' + state
 
